@@ -33,7 +33,13 @@ Theorem C09_auto_error : forall ord, ord_spec ord -> forall rd, rounders_ok rd -
     Qabs (out_value o - v) <= ((1 # 2) + (1 # 20)) * pow10 p /\
     Qabs (out_error o - e) <= ((1 # 2) + (1 # 20)) * pow10 p /\
     (* the uncertainty itself is rounded once: half a unit of ITS n-th figure *)
-    Qabs (out_error o - e) <= (1 # 2) * pow10 (ord e - c_n c + 1).
+    Qabs (out_error o - e) <= (1 # 2) * pow10 (ord e - c_n c + 1) /\
+    (* the printed uncertainty is in the decade of the given one or (carry) the next, and NOTHING is
+       printed below the place of the n-th figure of the uncertainty as given (so 12345 +/- 1000
+       with n = 1 cannot print 12300 +/- 1000) *)
+    (ord (out_error o) = ord e \/ ord (out_error o) = (ord e + 1)%Z) /\
+    (exists j : Z, out_value o == inject_Z j * pow10 (ord e - c_n c + 1)) /\
+    (exists j : Z, out_error o == inject_Z j * pow10 (ord e - c_n c + 1)).
 Proof. exact auto_error_lemma. Qed.
 Print Assumptions C09_auto_error.
 
@@ -51,7 +57,10 @@ Theorem C09_value_mode : forall ord, ord_spec ord -> forall rd, rounders_ok rd -
     Qabs (out_value o - v) <= ((1 # 2) + (1 # 20)) * pow10 p /\
     Qabs (out_error o - e) <= ((1 # 2) + (1 # 20)) * pow10 p /\
     (* the value itself is rounded once: half a unit of ITS n-th figure *)
-    Qabs (out_value o - v) <= (1 # 2) * pow10 (ord v - c_n c + 1).
+    Qabs (out_value o - v) <= (1 # 2) * pow10 (ord v - c_n c + 1) /\
+    (ord (out_value o) = ord v \/ ord (out_value o) = (ord v + 1)%Z) /\
+    (exists j : Z, out_value o == inject_Z j * pow10 (ord v - c_n c + 1)) /\
+    (exists j : Z, out_error o == inject_Z j * pow10 (ord v - c_n c + 1)).
 Proof. exact value_mode_lemma. Qed.
 Print Assumptions C09_value_mode.
 
